@@ -17,6 +17,11 @@ Carry(a, b, i) == IF i = 1 THEN 0 ELSE (a[i - 1] + b[i - 1] + Carry(a, b, i - 1)
 WAdd(a, b) == [i \in 1..N |-> (a[i] + b[i] + Carry(a, b, i)) % B]
 WAddFits(a, b) == (a[N] + b[N] + Carry(a, b, N)) \div B = 0  \* no overflow out of the top limb
 
+\* a - b for a >= b, limb by limb: Borrow(a, b, i) is the borrow OUT OF limb i - 1 (into limb i)
+RECURSIVE Borrow(_, _, _)
+Borrow(a, b, i) == IF i = 1 THEN 0 ELSE IF a[i - 1] - b[i - 1] - Borrow(a, b, i - 1) < 0 THEN 1 ELSE 0
+WSub(a, b) == [i \in 1..N |-> (a[i] - b[i] - Borrow(a, b, i) + B) % B]
+
 \* floor(a / 2), B even
 WHalf(a) == [i \in 1..N |-> (a[i] \div 2) + (IF i < N THEN (a[i + 1] % 2) * (B \div 2) ELSE 0)]
 
